@@ -43,9 +43,12 @@ leaves the generated term definitionally equal and the theorem keeps checking.
 
 Further forms (kernels outside the plain single-loop shape):
 
-* HELPER functions of the source (all-float64 signature) are translated to definitions of the kernel's namespace and proved
-  equal to the hand model's functions (`gen_eq_InstreamFineSediment_floodPlain`, `…_inChannel`, the conjuncts of
-  `gen_eq_ClimateVariables`, `bankErosion.pre = meanAnnualBankErosion`);
+* HELPER functions of the source are translated to definitions of the kernel's namespace tagged `@[gen_unfold]`; the tactic `tie`
+  unfolds them (`simp only [gen_unfold]`: whichever helpers the source has at the moment, so extracting or inlining a helper does not
+  invalidate a proof script); only where a helper needs an induction of its own is it named (the conjuncts of `gen_eq_ClimateVariables`);
+* values the source computes BEFORE the loop from the parameters alone are `let`s at the top of the regenerated `step`, and the theorem
+  instantiates the hand model's coefficients with the hand model's own function of the parameters (`Muskingum.coef`,
+  `BankErosion.meanAnnualBankErosion`, `Climate.barometricPressure`, …): hoisting an expression out of the loop or back in keeps it;
 * a HIDDEN state (carried between iterations, not returned: `prevVolume` of `instreamDissolvedNutrient`) is an extra
   component of the state of `init` / `step`; a series element read before the loop (`reachVolume[0]`) is an extra argument;
 * DELEGATION: `if cond { x = Callee(…); return … }` before the loop, or a body that is one call of another kernel function:
@@ -93,15 +96,15 @@ theorem gen_eq_RunoffCoefficient {α} [Num α] (coeff : α) (rain : List α) :
 
 /-! ### models/routing -/
 
-/-- `muskingum`: the pre-loop coefficients are `Muskingum.coef`, the loop starts from the state parameters, and one
-iteration is `Muskingum.step` (the storage state `s` is passed through unchanged) -/
+/-- `muskingum`: the loop starts from the state parameters, and one iteration is `Muskingum.step` with the coefficients
+`Muskingum.coef k x deltaT` (the code computes them before the loop from the parameters alone: they are `let`s at the top of the
+regenerated `step`, wherever the source computes them; the storage state `s` is passed through unchanged) -/
 theorem gen_eq_Muskingum {α} [Num α] (k x deltaT s prevInflow prevOutflow inflow lateral : α) :
-    Muskingum.coef k x deltaT = (let p := muskingum.pre s prevInflow prevOutflow k x deltaT; ⟨p.1, p.2.1, p.2.2⟩) ∧
     muskingum.init s prevInflow prevOutflow k x deltaT = (s, prevInflow, prevOutflow) ∧
     muskingum.guard s prevInflow prevOutflow k x deltaT = false ∧
-    ∀ a1 a2 a3, muskingum.step k x deltaT a1 a2 a3 s prevInflow prevOutflow inflow lateral =
-      (let r := Muskingum.step ⟨a1, a2, a3⟩ (prevInflow, prevOutflow) (inflow, lateral); ((s, r.1.1, r.1.2), r.2)) :=
-  ⟨rfl, rfl, rfl, fun _ _ _ => rfl⟩
+    muskingum.step k x deltaT s prevInflow prevOutflow inflow lateral =
+      (let r := Muskingum.step (Muskingum.coef k x deltaT) (prevInflow, prevOutflow) (inflow, lateral); ((s, r.1.1, r.1.2), r.2)) :=
+  ⟨rfl, rfl, rfl⟩
 
 /-- `LumpedConstituentTransport` (series arguments non-nil, as the generated wrapper passes them) = `LumpedConstituent.step`.
 The hand model writes the `0.0` of the flush branch as `Num.zero`: hypothesis `LitZero`. -/
@@ -168,12 +171,11 @@ theorem gen_eq_Scaling {α} [Num α] (scale : α) (input : List α) :
     Scaling.run scale input =
       if applyScaling.guard scale then zeros input.length else input.map (applyScaling.step scale) := rfl
 
-/-- `depthToRate` = `DepthToRate.run`, the conversion factor is `DepthToRate.conversion` -/
+/-- `depthToRate` = `DepthToRate.run` (the conversion factor `DepthToRate.conversion` is a `let` of the regenerated `step`) -/
 theorem gen_eq_DepthToRate {α} [Num α] (deltaT area : α) (inputs : List α) :
-    DepthToRate.conversion deltaT area = depthToRate.pre deltaT area ∧
     DepthToRate.run deltaT area inputs =
       if depthToRate.guard deltaT area then zeros inputs.length
-      else inputs.map (depthToRate.step deltaT area (depthToRate.pre deltaT area)) := ⟨rfl, rfl⟩
+      else inputs.map (depthToRate.step deltaT area) := rfl
 
 /-- `fixedPartition` = `FixedPartition.step` -/
 theorem gen_eq_FixedPartition {α} [Num α] (fraction incoming : α) :
@@ -201,7 +203,8 @@ theorem gen_eq_RatingPartition {α} [Num α] (inputAmount proportion : List α) 
          | some r => .ok r) := by
   refine ⟨rfl, ?_⟩
   unfold RatingCurvePartition.step ratingPartition.step
-  dsimp only
+  try simp only [gen_unfold]
+  try dsimp only
   generalize Fn.piecewise incoming inputAmount proportion = r
   cases r with
   | panic e => rfl
@@ -288,16 +291,14 @@ theorem gen_eq_Simhyd {α} [Num α] (i0 g0 t0 : α) (p : Simhyd.Params α) (st :
   simp only [Simhyd.soilEtConst]
   tie
 
-/-- `surm` = `Surm.step`; the two pre-loop values are the `fperv` and `fieldCapacity` of the hand model -/
+/-- `surm` = `Surm.step` (the two values computed before the loop, `fperv` and `fieldCapacity`, are `let`s of both) -/
 theorem gen_eq_Surm {α} [Num α] (i0 g0 t0 : α) (p : Surm.Params α) (st : Surm.State α) (rain pet : α) :
-    surm.pre i0 g0 t0 p.bfac p.coeff p.dseep p.fcFrac p.fimp p.rfac p.smax p.sq p.thres = (1 - p.fimp, p.fcFrac * p.smax) ∧
     surm.init i0 g0 t0 p.bfac p.coeff p.dseep p.fcFrac p.fimp p.rfac p.smax p.sq p.thres = (i0, g0, t0) ∧
     surm.guard i0 g0 t0 p.bfac p.coeff p.dseep p.fcFrac p.fimp p.rfac p.smax p.sq p.thres = false ∧
-    surm.step i0 g0 t0 p.bfac p.coeff p.dseep p.fcFrac p.fimp p.rfac p.smax p.sq p.thres (1 - p.fimp) (p.fcFrac * p.smax)
-        st.sms st.gw st.total rain pet =
+    surm.step i0 g0 t0 p.bfac p.coeff p.dseep p.fcFrac p.fimp p.rfac p.smax p.sq p.thres st.sms st.gw st.total rain pet =
       (let r := Surm.step p st (rain, pet)
        ((r.1.sms, r.1.gw, r.1.total), (r.2.runoff, r.2.quickflow, r.2.baseflow, r.2.store))) := by
-  refine ⟨rfl, rfl, rfl, ?_⟩
+  refine ⟨rfl, rfl, ?_⟩
   unfold surm.step Surm.step
   tie
 
@@ -344,14 +345,15 @@ theorem gen_eq_StorageDissolvedDecay {α} [Num α] (hz : LitZero α)
 
 /-! ### models/generation: bank erosion, USLE, gully -/
 
-/-- `bankErosion` = `BankErosion.step`; the pre-loop value is `meanAnnualBankErosion` (helper translated from the source) -/
-theorem gen_eq_BankErosion {α} [Num α] (p : BankErosion.Params α) (meanAnnual outflow totalVolume : α) :
-    bankErosion.pre p.riparianVegPercent p.maxRiparianVegEffectiveness p.soilErodibility p.bankErosionCoeff p.linkSlope p.bankFullFlow p.bankMgtFactor p.sedBulkDensity p.bankHeight p.linkLength p.dailyFlowPowerFactor p.longTermAvDailyFlow p.soilPercentFine p.durationInSeconds = BankErosion.meanAnnualBankErosion p ∧
+/-- `bankErosion` = `BankErosion.step` with the mean annual erosion `BankErosion.meanAnnualBankErosion p` (computed before the
+loop from the parameters alone by a helper translated from the source: a `let` of the regenerated `step`) -/
+theorem gen_eq_BankErosion {α} [Num α] (p : BankErosion.Params α) (outflow totalVolume : α) :
     bankErosion.guard p.riparianVegPercent p.maxRiparianVegEffectiveness p.soilErodibility p.bankErosionCoeff p.linkSlope p.bankFullFlow p.bankMgtFactor p.sedBulkDensity p.bankHeight p.linkLength p.dailyFlowPowerFactor p.longTermAvDailyFlow p.soilPercentFine p.durationInSeconds = false ∧
-    bankErosion.step p.riparianVegPercent p.maxRiparianVegEffectiveness p.soilErodibility p.bankErosionCoeff p.linkSlope p.bankFullFlow p.bankMgtFactor p.sedBulkDensity p.bankHeight p.linkLength p.dailyFlowPowerFactor p.longTermAvDailyFlow p.soilPercentFine p.durationInSeconds meanAnnual outflow totalVolume = BankErosion.step p meanAnnual (outflow, totalVolume) := by
-  refine ⟨rfl, rfl, ?_⟩
-  unfold bankErosion.step BankErosion.step BankErosion.totalKgPerSecond BankErosion.linkDischargeFactor
-  simp only [Units.daysPerYear, Units.tonnesToKg, Units.percentToProportion]
+    bankErosion.step p.riparianVegPercent p.maxRiparianVegEffectiveness p.soilErodibility p.bankErosionCoeff p.linkSlope p.bankFullFlow p.bankMgtFactor p.sedBulkDensity p.bankHeight p.linkLength p.dailyFlowPowerFactor p.longTermAvDailyFlow p.soilPercentFine p.durationInSeconds outflow totalVolume =
+      BankErosion.step p (BankErosion.meanAnnualBankErosion p) (outflow, totalVolume) := by
+  refine ⟨rfl, ?_⟩
+  unfold bankErosion.step BankErosion.step BankErosion.totalKgPerSecond BankErosion.linkDischargeFactor BankErosion.meanAnnualBankErosion
+  simp only [gen_unfold, Units.daysPerYear, Units.tonnesToKg, Units.percentToProportion]
   all_goals tie
 
 /-- the constant expression `2 * math.Pi`, folded exactly and rounded once by the Go compiler (the float64
@@ -360,18 +362,21 @@ written with 31 digits). The two decimals are different reals (they differ by < 
 (`#guard` below): at `ℝ` the tie of `usleFine` is modulo this literal. -/
 def TwoPi (α : Type) [Num α] : Prop := (6.283185307179586 : α) = UsleFine.twoPi
 
-/-- `usleFine` = `UsleFine.step` (including the dead `useAvModel` branch) -/
-theorem gen_eq_UsleFine {α} [Num α] (h2pi : TwoPi α) (p : UsleFine.Params α) (i : UsleFine.In α) :
+/-- `usleFine` = `UsleFine.step` (the `useAvModel` branch of the source is dead code: `useAvModel := false`). The hand model
+writes the quick-flow load of a day without an event as `0` (the source: `loadQ = 0` in an else-arm, or the initial `0.0` kept):
+hypothesis `NatZero`. -/
+theorem gen_eq_UsleFine {α} [Num α] (h2pi : TwoPi α) (h0 : NatZero α) (p : UsleFine.Params α) (i : UsleFine.In α) :
     usleFine.guard p.s p.p p.rainThreshold p.alpha p.beta p.eta p.a1 p.a2 p.a3 p.dwc p.avK p.avLS p.avFines p.area p.maxConc p.usleHSDRFine p.usleHSDRCoarse p.timeStepInSeconds = false ∧
     UsleFine.step p i =
       (let r := usleFine.step p.s p.p p.rainThreshold p.alpha p.beta p.eta p.a1 p.a2 p.a3 p.dwc p.avK p.avLS p.avFines p.area p.maxConc p.usleHSDRFine p.usleHSDRCoarse p.timeStepInSeconds i.qf i.sf i.rain i.klsc i.klscFine i.cFactor i.doy
        ⟨r.1, r.2.1, r.2.2.1, r.2.2.2.1, r.2.2.2.2.1, r.2.2.2.2.2.1, r.2.2.2.2.2.2.1, r.2.2.2.2.2.2.2⟩) := by
   refine ⟨rfl, ?_⟩
   unfold TwoPi at h2pi
+  unfold NatZero at h0
   unfold usleFine.step UsleFine.step UsleFine.rFactor UsleFine.adjustedRates UsleFine.litresPerDay
-  simp only [Units.mgPerLitreToKgPerM3, Units.squareMetresToHectares, Units.tonnesToKg, Units.kgToMilligram,
-    Units.cumecsToMegaLitresPerDay, Units.megaLitresToLitres, h2pi]
-  all_goals tie [h2pi]
+  simp only [gen_unfold, Units.mgPerLitreToKgPerM3, Units.squareMetresToHectares, Units.tonnesToKg, Units.kgToMilligram,
+    Units.cumecsToMegaLitresPerDay, Units.megaLitresToLitres, h2pi, h0]
+  all_goals tie [h2pi, h0]
 
 /-- the constant expression `1 / 365.25` of `gullyLoadOrig`, folded by the Go compiler, is the quotient the hand model
 computes at run time (equal at `Float`: IEEE division of two exactly representable numbers is the correctly rounded exact
@@ -386,10 +391,9 @@ theorem gen_eq_SednetGully {α} [Num α] (hadj : AnnualToDaily α) (p : SednetGu
        (r.fineLoad, r.coarseLoad, r.generatedFine, r.generatedCoarse)) := by
   refine ⟨rfl, ?_⟩
   unfold AnnualToDaily at hadj
-  unfold sednetGullyOrig.delegateStep sednetGullyOrig.delegate.pre sednetGullyOrig.delegate.step
-    sednetGullyOrig.delegate.gullyLoadOrig SednetGully.step SednetGully.gullyLoadOrig SednetGully.dailyRunoffFactor
-    SednetGully.activityFactor
-  simp only [Units.tonnesToKg, hadj]
+  unfold sednetGullyOrig.delegateStep sednetGullyOrig.delegate.step
+    SednetGully.step SednetGully.gullyLoadOrig SednetGully.dailyRunoffFactor SednetGully.activityFactor
+  simp only [gen_unfold, Units.tonnesToKg, hadj]
   all_goals tie [hadj]
 
 /-- `sednetGullyDerm` (the whole body is `sednetGully(…, gullyLoadDerm)`) = `SednetGully.step gullyLoadDerm` -/
@@ -399,9 +403,9 @@ theorem gen_eq_SednetGullyAlt {α} [Num α] (p : SednetGully.Params α) (q yr ar
       (let r := SednetGully.step SednetGully.gullyLoadDerm p (q, yr, ar, al)
        (r.fineLoad, r.coarseLoad, r.generatedFine, r.generatedCoarse)) := by
   refine ⟨rfl, ?_⟩
-  unfold sednetGullyDerm.delegateStep sednetGullyDerm.delegate.pre sednetGullyDerm.delegate.step
-    sednetGullyDerm.delegate.gullyLoadDerm SednetGully.step SednetGully.gullyLoadDerm SednetGully.activityFactor
-  simp only [Units.metresToMillimetres, Units.secondsPerDay]
+  unfold sednetGullyDerm.delegateStep sednetGullyDerm.delegate.step
+    SednetGully.step SednetGully.gullyLoadDerm SednetGully.activityFactor
+  simp only [gen_unfold, Units.metresToMillimetres, Units.secondsPerDay]
   all_goals tie
 
 /-! ### models/routing: dissolved nutrient, fine sediment -/
@@ -409,23 +413,23 @@ theorem gen_eq_SednetGullyAlt {α} [Num α] (p : SednetGully.Params α) (q yr ar
 /-- `instreamDissolvedNutrient`. Before the loop the code reads `reachVolume[0]` (`v0`: the initial `prevVolume`, a hidden
 state of the loop — it is carried between iterations and not returned). The branch `doDecay < 0.5` runs
 `LumpedConstituentTransport` (= `LumpedConstituent.step` with the point source per second, hypothesis `LitZero` as for
-`gen_eq_LumpedConstituent`); otherwise one iteration is `InstreamDissolvedNutrient.step` (the hand model writes the `0` of
-the comparisons as `0.0`: hypothesis `NatZero`), the returned `storedMass` passing through unchanged. -/
+`gen_eq_LumpedConstituent`); otherwise one iteration is `InstreamDissolvedNutrient.step` with the two values the code computes
+before the loop from the parameters alone, `timeStepInDays = 86400 / dur` and `pointSourcePerSecond = psl / 31557600` (the hand
+model writes the `0` of the comparisons as `0.0`: hypothesis `NatZero`), the returned `storedMass` passing through unchanged. -/
 theorem gen_eq_InstreamDissolvedNutrient {α} [Num α] (hz : LitZero α) (h0 : NatZero α)
-    (sm dd psl lh lw ll uv dur v0 s tsd psps pv up lat vol out : α) :
+    (sm dd psl lh lw ll uv dur v0 s pv up lat vol out : α) :
     instreamDissolvedNutrient.delegates sm dd psl lh lw ll uv dur v0 = decide (dd < 0.5) ∧
     instreamDissolvedNutrient.delegateInit sm dd psl lh lw ll uv dur v0 = sm ∧
     instreamDissolvedNutrient.delegateFinal sm dd psl lh lw ll uv dur v0 s = s ∧
     instreamDissolvedNutrient.delegateStep sm dd psl lh lw ll uv dur v0 s up lat vol out =
       (let r := LumpedConstituent.step (psl / 31557600) dur s (up, lat, out, vol)
        (r.1, (Num.zero, r.2.outflowLoad, r.2.pointSourceLoad))) ∧
-    instreamDissolvedNutrient.pre sm dd psl lh lw ll uv dur v0 = (86400 / dur, psl / 31557600) ∧
     instreamDissolvedNutrient.init sm dd psl lh lw ll uv dur v0 = (sm, v0) ∧
     instreamDissolvedNutrient.guard sm dd psl lh lw ll uv dur v0 = false ∧
-    instreamDissolvedNutrient.step dd psl lh lw ll uv dur tsd psps sm pv up lat vol out =
-      (let r := InstreamDissolvedNutrient.step sm psps lh lw ll uv dur tsd pv (up, lat, vol, out)
+    instreamDissolvedNutrient.step dd psl lh lw ll uv dur sm pv up lat vol out =
+      (let r := InstreamDissolvedNutrient.step sm (psl / 31557600) lh lw ll uv dur (86400 / dur) pv (up, lat, vol, out)
        ((sm, r.1), (r.2.decayed.getD Num.zero, r.2.downstream, r.2.pointSource.getD Num.zero))) := by
-  refine ⟨rfl, rfl, rfl, ?_, rfl, rfl, rfl, ?_⟩
+  refine ⟨rfl, rfl, rfl, ?_, rfl, rfl, ?_⟩
   · unfold LitZero at hz
     unfold instreamDissolvedNutrient.delegateStep instreamDissolvedNutrient.delegate.step LumpedConstituent.step
     simp only [LumpedConstituent.minimumVolume]
@@ -440,44 +444,31 @@ are; the hand model of the fine-sediment kernel writes them `1000.0` and `86400.
 def Lit1000 (α : Type) [Num α] : Prop := (1000 : α) = 1000.0
 def Lit86400 (α : Type) [Num α] : Prop := (86400 : α) = 86400.0
 
-/-- helper `floodPlainDepositionEmperical` of instream_fine_sediment.go = the hand model's -/
-theorem gen_eq_InstreamFineSediment_floodPlain {α} [Num α] (a b c d e : α) :
-    instreamFineSediment.floodPlainDepositionEmperical a b c d e = InstreamFineSediment.floodPlainDepositionEmperical a b c d e := by
-  unfold instreamFineSediment.floodPlainDepositionEmperical InstreamFineSediment.floodPlainDepositionEmperical
-  all_goals tie
-
-/-- helper `inChannelStorage` of instream_fine_sediment.go = the hand model's (`stc` inlined) -/
-theorem gen_eq_InstreamFineSediment_inChannel {α} [Num α] (h1 : Lit1000 α) (h2 : Lit86400 α) (a b c d e f g h i j : α) :
-    instreamFineSediment.inChannelStorage a b c d e f g h i j = InstreamFineSediment.inChannelStorage a b c d e f g h i j := by
-  unfold Lit1000 at h1
-  unfold Lit86400 at h2
-  unfold instreamFineSediment.inChannelStorage InstreamFineSediment.inChannelStorage InstreamFineSediment.stc
-  simp only [h1, h2]
-  all_goals tie [h1, h2]
-
-/-- `instreamFineSediment`, main path (`bankFullFlow > 1e-8`): `pre` = `maxStorage`, `init` = `initStore`, one iteration =
-`stepMain`; the condition of the branch `bankFullFlow <= 1e-8` is `lumped` (its run: `gen_eq_InstreamFineSediment_lumped`). -/
-theorem gen_eq_InstreamFineSediment {α} [Num α] (h1 : Lit1000 α) (h2 : Lit86400 α) (p : InstreamFineSediment.Params α)
+/-- `instreamFineSediment`, main path (`bankFullFlow > 1e-8`): `init` = `initStore`, one iteration = `stepMain` (with the
+`maxStorage` the code computes before the loop from the parameters alone; `LitZero`: a value the step does not compute is the
+literal `0.0` or the zero value of a variable); the condition of the branch `bankFullFlow <= 1e-8` is `lumped` (its run: `gen_eq_InstreamFineSediment_lumped`). -/
+theorem gen_eq_InstreamFineSediment {α} [Num α] (h1 : Lit1000 α) (h2 : Lit86400 α) (hz : LitZero α) (p : InstreamFineSediment.Params α)
     (csf tsm up lat loc vol out : α) :
     instreamFineSediment.delegates csf tsm p.bankFullFlow p.fineSedSettVelocityFlood p.floodPlainArea p.linkWidth p.linkLength p.linkSlope p.bankHeight p.propBankHeightForFineDep p.sedBulkDensity p.manningsN p.fineSedSettVelocity p.fineSedReMobVelocity p.durationInSeconds = InstreamFineSediment.lumped p ∧
-    instreamFineSediment.pre csf tsm p.bankFullFlow p.fineSedSettVelocityFlood p.floodPlainArea p.linkWidth p.linkLength p.linkSlope p.bankHeight p.propBankHeightForFineDep p.sedBulkDensity p.manningsN p.fineSedSettVelocity p.fineSedReMobVelocity p.durationInSeconds = InstreamFineSediment.maxStorage p ∧
     instreamFineSediment.init csf tsm p.bankFullFlow p.fineSedSettVelocityFlood p.floodPlainArea p.linkWidth p.linkLength p.linkSlope p.bankHeight p.propBankHeightForFineDep p.sedBulkDensity p.manningsN p.fineSedSettVelocity p.fineSedReMobVelocity p.durationInSeconds = (InstreamFineSediment.initStore p csf, tsm) ∧
     instreamFineSediment.guard csf tsm p.bankFullFlow p.fineSedSettVelocityFlood p.floodPlainArea p.linkWidth p.linkLength p.linkSlope p.bankHeight p.propBankHeightForFineDep p.sedBulkDensity p.manningsN p.fineSedSettVelocity p.fineSedReMobVelocity p.durationInSeconds = false ∧
-    instreamFineSediment.step p.bankFullFlow p.fineSedSettVelocityFlood p.floodPlainArea p.linkWidth p.linkLength p.linkSlope p.bankHeight p.propBankHeightForFineDep p.sedBulkDensity p.manningsN p.fineSedSettVelocity p.fineSedReMobVelocity p.durationInSeconds (InstreamFineSediment.maxStorage p) csf tsm up lat loc vol out =
+    instreamFineSediment.step p.bankFullFlow p.fineSedSettVelocityFlood p.floodPlainArea p.linkWidth p.linkLength p.linkSlope p.bankHeight p.propBankHeightForFineDep p.sedBulkDensity p.manningsN p.fineSedSettVelocity p.fineSedReMobVelocity p.durationInSeconds csf tsm up lat loc vol out =
       (let r := InstreamFineSediment.stepMain p (csf, tsm) (up, lat, loc, vol, out)
        (r.1, (r.2.loadDownstream, r.2.loadToFloodplain, r.2.loadToChannelDeposition, r.2.floodplainDepositionFraction,
               r.2.channelDepositionFraction))) := by
   have h1' := h1
+  have h2' := h2
   unfold Lit1000 at h1'
-  refine ⟨rfl, ?_, ?_, rfl, ?_⟩
-  · unfold instreamFineSediment.pre InstreamFineSediment.maxStorage
-    simp only [h1']
+  unfold Lit86400 at h2'
+  unfold LitZero at hz
+  refine ⟨rfl, ?_, rfl, ?_⟩
   · unfold instreamFineSediment.init InstreamFineSediment.initStore InstreamFineSediment.maxStorage
     simp only [h1']
     all_goals tie [h1']
-  · unfold instreamFineSediment.step InstreamFineSediment.stepMain
-    simp only [gen_eq_InstreamFineSediment_floodPlain, gen_eq_InstreamFineSediment_inChannel h1 h2]
-    all_goals tie
+  · unfold instreamFineSediment.step InstreamFineSediment.stepMain InstreamFineSediment.maxStorage
+      InstreamFineSediment.floodPlainDepositionEmperical InstreamFineSediment.inChannelStorage InstreamFineSediment.stc
+    simp only [gen_unfold, h1', h2']
+    all_goals tie [h1', h2', ← hz]
 
 /-- `instreamFineSediment`, the branch `bankFullFlow <= 1e-8`: it builds the temporary series `lateralAndLocalMass`
 (`NewArray1DFloat64`, `CopyFrom(lateralMass)`, `AddToFloat64Array(…, reachLocalMass)`: at every step `lateralMass +
@@ -538,7 +529,7 @@ theorem gen_eq_ClimateVariables_bisect {α} [Num α] (pa h : α)
 `calcHumidityRatioActual`, `calcEnthalpy`, `calcWetBulb` (the 40-step bisection with `break`) translated from the source
 are the hand model's, and one iteration is `Climate.sample`. The source compares `(hEnthalpy - fmid) > 0.0`, the hand
 model `0 < h - fmid`: hypothesis `NatZero`. -/
-theorem gen_eq_ClimateVariables {α} [Num α] (h0 : NatZero α) (elevation pa t rh x y z u : α) :
+theorem gen_eq_ClimateVariables {α} [Num α] (h0 : NatZero α) (elevation _pa t rh x y z u : α) :
     climateVariables.barometricPressure elevation = Climate.barometricPressure elevation ∧
     climateVariables.calcVaporPressure t = Climate.vaporPressure t ∧
     climateVariables.calcDewPoint t rh = Climate.dewPoint t rh ∧
@@ -546,10 +537,9 @@ theorem gen_eq_ClimateVariables {α} [Num α] (h0 : NatZero α) (elevation pa t 
     climateVariables.calcHumidityRatioActual x y z = Climate.humidityRatioActual x y z ∧
     climateVariables.calcEnthalpy x y = Climate.enthalpy x y ∧
     climateVariables.calcWetBulb x y z u = Climate.wetBulb x y z u ∧
-    climateVariables.pre elevation = Climate.barometricPressure elevation ∧
     climateVariables.guard elevation = false ∧
-    climateVariables.step elevation pa t rh =
-      (let r := Climate.sample pa t rh; (r.vaporPressure, r.dewPoint, r.wetBulb, r.deltaT)) := by
+    climateVariables.step elevation t rh =
+      (let r := Climate.sample (Climate.barometricPressure elevation) t rh; (r.vaporPressure, r.dewPoint, r.wetBulb, r.deltaT)) := by
   unfold NatZero at h0
   have hvp : ∀ t : α, climateVariables.calcVaporPressure t = Climate.vaporPressure t := by
     intro t
@@ -574,7 +564,7 @@ theorem gen_eq_ClimateVariables {α} [Num α] (h0 : NatZero α) (elevation pa t 
     have hh : ∀ a b : α, climateVariables.calcHumidityRatio a b = Climate.humidityRatio a b := fun _ _ => rfl
     simp only [he, hh, Climate.acc]
     all_goals tie
-  refine ⟨rfl, hvp t, hdp t rh, rfl, hra x y z, rfl, hwb x y z u, rfl, rfl, ?_⟩
+  refine ⟨rfl, hvp t, hdp t rh, rfl, hra x y z, rfl, hwb x y z u, rfl, ?_⟩
   unfold climateVariables.step Climate.sample
   simp only [hvp, hdp, hra, hwb]
   rfl
